@@ -251,6 +251,7 @@ func orchestrate(id, tier string) int {
 	sd := seed()
 	dir := filepath.Join(root, ".run", id)
 	os.RemoveAll(dir)
+	defer os.RemoveAll(filepath.Join(root, ".run", "histfiles"))
 	if err := os.MkdirAll(dir, 0o755); err != nil {
 		fmt.Fprintln(os.Stderr, err)
 		return 70
